@@ -300,7 +300,7 @@ func runCheck(o checkOpts) int {
 		}
 	}
 	if len(again) > 0 && len(again) <= 40 {
-		dischargeAll(again, tmp, budget*3, true, 3)
+		dischargeAll(again, tmp, budget*3, true, 5)
 		retried = len(again)
 	}
 
